@@ -53,6 +53,22 @@ class Fresh:
         self.params = set(fi.params())
         self.paths = stmt_paths(fi.node)
         self._memo = {}
+        self._order = None
+
+    def _pos(self, n):
+        """position of a construct in the order the function's text is executed (depth-first, source order of the syntax tree):
+        line numbers do not order code spliced in from a helper (sa/expand.py keeps the helper's own lines)"""
+        if self._order is None:
+            self._order = {}
+            k = [0]
+
+            def rec(x):
+                self._order[id(x)] = k[0]
+                k[0] += 1
+                for c in ast.iter_child_nodes(x):
+                    rec(c)
+            rec(self.node)
+        return self._order.get(id(n), _ln(n) * 1000)
 
     # returns (container_fresh, elements_fresh, why)
     def prov(self, e, at, depth=0, seen=frozenset()):
@@ -173,10 +189,10 @@ class Fresh:
         if at_stmt is not None:
             dom = [d for d in defs if struct_dominates(self.paths, d[1], at_stmt)]
             if dom:
-                latest = max(dom, key=lambda d: _ln(d[1]))
-                cands = [latest] + [d for d in defs if d not in dom and _ln(latest[1]) < _ln(d[1]) < _ln(at_stmt)]
+                latest = max(dom, key=lambda d: self._pos(d[1]))
+                cands = [latest] + [d for d in defs if d not in dom and self._pos(latest[1]) < self._pos(d[1]) < self._pos(at_stmt)]
             else:
-                cands = [d for d in defs if _ln(d[1]) <= _ln(at_stmt)] or defs
+                cands = [d for d in defs if self._pos(d[1]) <= self._pos(at_stmt)] or defs
                 if name in self.params:
                     return (False, False, "parameter %s (may be unassigned here)" % name)
         inner = self._enclosing_loop_def(name, defs, at_stmt)
